@@ -1,4 +1,223 @@
-//! C13 — not yet built
-use crate::ctx::Ctx;
-pub fn run(c: &mut Ctx) { c.notes.push("C13: not implemented".into()); }
-pub fn worker_case(_case: &str) -> String { "unimplemented".into() }
+//! C13 — read-only queries are total on arbitrary object graphs.
+//!
+//! Every query runs on the REAL `Document` inside the isolated worker (`iso::run_isolated`):
+//! a case line is the protocol request `c13 <mode> <fuel> <nt> <target ids…> <trailer> <k> <objects…>`;
+//! the worker answers one `field=value` token per query (`ok…` / `err` / `panic@file:line`),
+//! the parent adds `timeout` / `abort` for a dead worker and then isolates the offending field.
+//! Correspondence: the same request line is answered by the Lean model (`Driver/C13.lean`) and the
+//! replies are diffed field by field. Oracle: every field must be `ok…` or `err`.
+use crate::codec::*;
+use crate::ctx::{guard, Ctx};
+use crate::rng::Rng;
+use indexmap::IndexMap;
+use lopdf::{Dictionary, Document, Object, ObjectId, Outline, Stream, StringFormat};
+use serde_json::json;
+use std::collections::{BTreeMap, HashSet};
+
+// ------------------------------------------------------------------------------------------
+// worker side: run the queries on the real document
+// ------------------------------------------------------------------------------------------
+
+fn ids_str(ids: &[ObjectId]) -> String {
+    ids.iter().map(|(n, g)| format!("{}_{}", n, g)).collect::<Vec<_>>().join("+")
+}
+fn variant(o: &Object) -> String {
+    match o {
+        Object::Dictionary(d) => format!("Dictionary{}", d.len()),
+        Object::Array(a) => format!("Array{}", a.len()),
+        Object::Stream(s) => format!("Stream{}", s.dict.len()),
+        o => o.enum_variant().to_string(),
+    }
+}
+/// object as one token: protocol text with spaces replaced
+fn obj_tok(o: &Object) -> String { show_obj(o).replace(' ', "~") }
+
+fn site_class(site: &str, msg: &str) -> String {
+    if msg.contains("capacity overflow") { return "alloc:capacity-overflow".into(); }
+    if site.contains("iter/traits/accum.rs") && msg.contains("add with overflow") { return "core:sum-overflow".into(); }
+    site.to_string()
+}
+fn run_field<F: FnOnce() -> Result<String, ()>>(f: F) -> String {
+    match guard(f) {
+        Ok(Ok(s)) => if s.is_empty() { "ok".into() } else { format!("ok,{}", s) },
+        Ok(Err(())) => "err".into(),
+        Err((site, msg)) => format!("panic@{}", site_class(&site, &msg)),
+    }
+}
+fn e<T, E>(r: Result<T, E>) -> Result<T, ()> { r.map_err(|_| ()) }
+
+fn outline_digest(o: &Outline, s: &mut String) {
+    match o {
+        Outline::Destination(d) => {
+            s.push_str("d(");
+            s.push_str(&d.title().map(obj_tok).unwrap_or("-".into())); s.push('|');
+            s.push_str(&d.page().map(obj_tok).unwrap_or("-".into())); s.push(')');
+        }
+        Outline::SubOutlines(v) => { s.push('['); for x in v { outline_digest(x, s); } s.push(']'); }
+    }
+}
+fn named_digest(n: &IndexMap<Vec<u8>, lopdf::Destination>) -> String {
+    let mut s = format!("{}", n.len());
+    for (k, d) in n.iter() {
+        s.push_str(&format!(":{}({}|{})", hex_tok(k), d.title().map(obj_tok).unwrap_or("-".into()), d.page().map(obj_tok).unwrap_or("-".into())));
+    }
+    s
+}
+pub const WALKER_FIELDS: [&str; 3] = ["outl", "toc", "dests"];
+pub const PAGES_FIELDS: [&str; 4] = ["pages", "iter", "toc", "text"];
+
+/// all fields of a document, in the fixed order shared with the model
+pub fn field_names(targets: &[ObjectId]) -> Vec<String> {
+    let mut v: Vec<String> = vec!["cat".into(), "enc".into(), "cf".into(), "iter".into(), "pages".into()];
+    for t in targets {
+        let t = format!("{}_{}", t.0, t.1);
+        for q in ["go", "gom", "gd", "pc", "pcc", "pr", "pf", "pa", "pi", "op", "fe", "nd"] { v.push(format!("{}:{}", q, t)); }
+    }
+    v.push("outl".into()); v.push("toc".into()); v.push("dests".into()); v.push("text".into());
+    v
+}
+
+fn parse_id(s: &str) -> Option<ObjectId> { let (a, b) = s.split_once('_')?; Some((a.parse().ok()?, b.parse().ok()?)) }
+
+fn one_byte_name(t: &[Option<u16>; 256]) -> &'static str {
+    // distinguishing cells: 0x27 quotesingle/quoteright, 0x80, 0xA0, 0x18
+    match (t[0x27], t[0x80], t[0x18], t[0x21]) {
+        (Some(0x2019), None, None, _) => "Standard",
+        (Some(0x27), Some(0xC4), None, _) => "MacRoman",
+        (_, _, _, Some(0xF721)) => "MacExpert",
+        (Some(0x27), Some(0x20AC), None, _) => "WinAnsi",
+        (Some(0x27), Some(0x2022), Some(0x02D8), _) => "PDFDoc",
+        _ => "?",
+    }
+}
+
+fn font_encoding_field(doc: &Document, t: ObjectId) -> Result<String, ()> {
+    let d = e(doc.get_dictionary(t))?;
+    use lopdf::Encoding::*;
+    match d.get_font_encoding(doc) {
+        Ok(OneByteEncoding(t)) => Ok(format!("one:{}", one_byte_name(t))),
+        Ok(SimpleEncoding(n)) => Ok(format!("simple:{}", hex_tok(n))),
+        Ok(UnicodeMapEncoding(_)) => Ok("tounicode".into()),
+        // failures inside get_encoding_from_to_unicode_cmap (filters / CMap parser: C09, C15)
+        Err(lopdf::Error::ToUnicodeCMap(_)) | Err(lopdf::Error::Decompress(_)) | Err(lopdf::Error::Unimplemented(_)) | Err(lopdf::Error::IO(_)) => Ok("tounicode".into()),
+        Err(_) => Err(()),
+    }
+}
+
+pub fn eval_field(doc: &mut Document, field: &str) -> String {
+    let (q, arg) = field.split_once(':').unwrap_or((field, ""));
+    let t = parse_id(arg).unwrap_or((0, 0));
+    match q {
+        "cat" => run_field(|| Ok(format!("{}", e(doc.catalog())?.len()))),
+        "enc" => run_field(|| Ok(format!("{}", e(doc.get_encrypted())?.len()))),
+        "cf" => run_field(|| {
+            let m = doc.get_crypt_filters();
+            // the concrete filter type is not observable through `dyn CryptFilter`; names only
+            Ok(format!("{}{}", m.len(), m.keys().map(|k| format!(":{}", hex_tok(k))).collect::<String>()))
+        }),
+        "iter" => run_field(|| { let v: Vec<ObjectId> = doc.page_iter().collect(); Ok(format!("{},{}", v.len(), ids_str(&v))) }),
+        "pages" => run_field(|| {
+            let m = doc.get_pages();
+            let ok = m.keys().enumerate().all(|(i, k)| *k as usize == i + 1);
+            let v: Vec<ObjectId> = m.values().cloned().collect();
+            Ok(format!("{}{},{}", if ok { "" } else { "BADNUM" }, v.len(), ids_str(&v)))
+        }),
+        "go" => run_field(|| Ok(variant(e(doc.get_object(t))?))),
+        "gom" => run_field(|| Ok(variant(e(doc.get_object_mut(t))?))),
+        "gd" => run_field(|| Ok(format!("{}", e(doc.get_dictionary(t))?.len()))),
+        "pc" => run_field(|| Ok(ids_str(&doc.get_page_contents(t)))),
+        "pcc" => run_field(|| { e(doc.get_page_content(t))?; Ok(String::new()) }),
+        "pr" => run_field(|| { let (d, ids) = e(doc.get_page_resources(t))?; Ok(format!("{},{}", if let Some(d) = d { format!("d{}", d.len()) } else { "n".into() }, ids_str(&ids))) }),
+        "pf" => run_field(|| { let f = e(doc.get_page_fonts(t))?; Ok(f.iter().map(|(k, d)| format!("{}.{}", hex_tok(k), d.len())).collect::<Vec<_>>().join("+")) }),
+        "pa" => run_field(|| Ok(format!("{}", e(doc.get_page_annotations(t))?.len()))),
+        "pi" => run_field(|| {
+            let v = e(doc.get_page_images(t))?;
+            Ok(v.iter().map(|i| format!("{}_{}.{}.{}.{}.{}.{}", i.id.0, i.id.1, i.width, i.height,
+                i.color_space.as_ref().map(|s| hex_tok(s.as_bytes())).unwrap_or("n".into()),
+                i.bits_per_component.map(|b| b.to_string()).unwrap_or("n".into()),
+                i.filters.as_ref().map(|f| f.len()).unwrap_or(0))).collect::<Vec<_>>().join("+"))
+        }),
+        "op" => run_field(|| { let p = e(doc.get_object_page(t))?; Ok(format!("{}_{}", p.0, p.1)) }),
+        "fe" => run_field(|| font_encoding_field(doc, t)),
+        "nd" => run_field(|| {
+            let d = e(doc.get_dictionary(t))?;
+            let mut named = IndexMap::new();
+            e(doc.get_named_destinations(d, &mut named))?;
+            Ok(named_digest(&named))
+        }),
+        "dests" => run_field(|| {
+            // the tree `get_outlines` would use
+            let cat = e(doc.catalog())?;
+            let tree = match doc.get_dict_in_dict(cat, b"Dests") {
+                Ok(t) => t,
+                Err(_) => e(doc.get_dict_in_dict(e(doc.get_dict_in_dict(cat, b"Names"))?, b"Dests"))?,
+            };
+            let mut named = IndexMap::new();
+            e(doc.get_named_destinations(tree, &mut named))?;
+            Ok(named_digest(&named))
+        }),
+        "outl" => run_field(|| {
+            let mut named = IndexMap::new();
+            let o = e(doc.get_outlines(None, None, &mut named))?;
+            let mut s = String::new();
+            match o { Some(v) => { s.push('['); for x in &v { outline_digest(x, &mut s); } s.push(']'); } None => s.push_str("none") }
+            Ok(format!("{},{}", s, named_digest(&named)))
+        }),
+        "toc" => run_field(|| {
+            let t = e(doc.get_toc())?;
+            Ok(format!("{}{},{}", t.toc.len(), t.toc.iter().map(|x| format!(":{}.{}", x.level, x.page)).collect::<String>(), t.errors.len()))
+        }),
+        "text" => run_field(|| {
+            let n = doc.get_pages().len() as u32;
+            let mut nums: Vec<u32> = (1..=n.min(3)).collect(); nums.push(99); nums.push(0);
+            let chunks = doc.extract_text_chunks(&nums);
+            let all = doc.extract_text(&nums);
+            // decode_text on every font of the first pages
+            for (_, pid) in doc.get_pages().into_iter().take(3) {
+                if let Ok(fonts) = doc.get_page_fonts(pid) {
+                    for (_, f) in fonts { if let Ok(enc) = f.get_font_encoding(doc) {
+                        let _ = Document::decode_text(&enc, &[0, 1, 0x41, 0x80, 0xff, 0xd8, 0x00, 0xdc, 0x7f]);
+                    } }
+                }
+            }
+            Ok(format!("{}.{}", chunks.len(), if all.is_ok() { "ok" } else { "err" }))
+        }),
+        _ => "bad-field".into(),
+    }
+}
+
+pub struct Case { pub mode: String, pub fuel: u64, pub targets: Vec<ObjectId>, pub doc: Document }
+
+pub fn parse_case(line: &str) -> Option<Case> {
+    let toks: Vec<&str> = line.split(' ').filter(|t| !t.is_empty()).collect();
+    let mut it = toks.iter();
+    if *it.next()? != "c13" { return None; }
+    let mode = it.next()?.to_string();
+    let fuel: u64 = it.next()?.parse().ok()?;
+    let nt: usize = it.next()?.parse().ok()?;
+    let mut targets = vec![];
+    for _ in 0..nt { targets.push(parse_id(it.next()?)?); }
+    let trailer = match parse_obj(&mut it)? { Object::Dictionary(d) => d, _ => return None };
+    let k: usize = it.next()?.parse().ok()?;
+    let mut doc = Document::with_version("1.5");
+    doc.trailer = trailer;
+    for _ in 0..k {
+        let n: u32 = it.next()?.parse().ok()?;
+        let g: u16 = it.next()?.parse().ok()?;
+        let o = parse_obj(&mut it)?;
+        doc.objects.insert((n, g), o);
+        if n > doc.max_id { doc.max_id = n; }
+    }
+    if it.next().is_some() { return None; }
+    Some(Case { mode, fuel, targets, doc })
+}
+
+/// worker entry: `mode` = `all` | `nowalk` | `one=<field>`
+pub fn worker_case(case: &str) -> String {
+    let Some(mut c) = parse_case(case) else { return "bad-case".into() };
+    let fields: Vec<String> = if let Some(f) = c.mode.strip_prefix("one=") { vec![f.to_string()] }
+        else { field_names(&c.targets).into_iter().filter(|f| c.mode != "nowalk" || !WALKER_FIELDS.contains(&f.as_str())).collect() };
+    fields.iter().map(|f| format!("{}={}", f, eval_field(&mut c.doc, f))).collect::<Vec<_>>().join(" ")
+}
+
+pub fn run(c: &mut Ctx) { c.notes.push("C13: harness parent not yet written".into()); let _ = (json!({}), Rng::new(1), HashSet::<u8>::new(), BTreeMap::<u8, u8>::new(), Dictionary::new(), StringFormat::Literal, Stream::new(Dictionary::new(), vec![])); }
